@@ -2,7 +2,7 @@
    non-vacuity Examples only. The pins in tools/pins/C04.v re-check the statements.
    The model (Model.v) follows src/substream/mod.rs after the `fix:` commits F-C04a..f. *)
 From Coq Require Import List NArith Bool.
-From V.gen Require Consts.
+From V.gen Require Consts C04Tables.
 From V.C04 Require Import Model Proofs Codec CodecProofs Carrier CarrierProofs Yamux YamuxProofs WebRtc WebRtcProofs.
 Import ListNotations.
 Open Scope N_scope.
@@ -357,6 +357,18 @@ Theorem C04_carrier_refines_script :
 Proof. intros S E K env fuel bp c ops g rs g' L ab H T HT. exact (grun_sim K env fuel bp c ops g rs g' L ab H T HT). Qed.
 Print Assumptions C04_carrier_refines_script.
 
+(* The fuel of the carrier-generic definitions is a modelling device. A single poll (poll_ready,
+   poll_flush, poll_close) never exhausts its own: every carrier call ends the poll or takes a byte
+   or an empty frame off the queue. The loops that wait for a wake-up (the flush inside send_framed,
+   write_all, shutdown) run as long as the carrier keeps waking the task: that is the `fuel`
+   argument of gstep / grun, and a run that exhausts it yields None, about which nothing is claimed
+   (the differential run shows such a case as a disagreement). *)
+Theorem C04_carrier_poll_total :
+  forall (S : Type) (K : carrier S) (s : S) (w : wstate) (sent : list N),
+  gflush K (flush_fuel w) s w sent <> None.
+Proof. intros S K s w sent. apply gflush_total. apply flush_fuel_enough. Qed.
+Print Assumptions C04_carrier_poll_total.
+
 (* In particular, over every carrier: whole frames, each exactly once, in call order ... *)
 Theorem C04_carrier_in_order :
   forall (S E : Type) (K : carrier S) (env : S -> E -> S) (fuel : nat) (bp : N) (c : codec)
@@ -492,6 +504,16 @@ Example C04_consts :
   Consts.SUBSTREAM_READ_BUFFER_INIT = 1024 /\ Consts.SUBSTREAM_READ_BUFFER_INIT_OTHER = 1024 /\
   Consts.SUBSTREAM_SIZE_VEC_LEN = 10 /\ 0 < Consts.BACKPRESSURE_BOUNDARY /\
   Consts.YAMUX_DEFAULT_CREDIT = 262144 /\ 0 < Consts.C19_WEBRTC_MAX_FRAME_SIZE /\ 0 < Consts.WEBRTC_MAX_INFLIGHT_MESSAGES.
+Proof. vm_compute. repeat split; reflexivity. Qed.
+
+(* The error kinds: the framing code itself names exactly PermissionDenied (its refusals) and WriteZero (a
+   transport that accepts nothing); a carrier failure of any kind is passed on with its kind
+   (From<io::Error>), except that send_identity_payload reports a failed write as ConnectionClosed. The model
+   has one failure event for all kinds; the harness injects every kind of the table (corpus/C04/errkinds.case). *)
+Example C04_error_kinds :
+  C04Tables.SUBSTREAM_ERRORKINDS_MASK = 2 ^ C04Tables.EK_PERMISSION_DENIED + 2 ^ C04Tables.EK_WRITE_ZERO /\
+  C04Tables.SUBSTREAM_IOERR_KEEPS_KIND = 1 /\ C04Tables.SEND_IDENTITY_MAPS_WRITE_ERR_TO_CLOSED = 1 /\
+  C04Tables.ERROR_KINDS_LEN = 20.
 Proof. vm_compute. repeat split; reflexivity. Qed.
 
 (* ---- non-vacuity ---- *)
